@@ -40,7 +40,7 @@ CLAIMED = {
     "C13": ("Proved for any key type with a deciding equality: the counting association list of the aggregators gives each key the total number of its occurrences over the per-sequence lists, which for duplicate-free lists is the number of sequences whose per-sequence output contains it; each distinct key is listed once; for snps the per-sequence lists are duplicate-free, the counter is the generic one and the output is sorted by (position, allele). Frequencies and the threshold test are modelled bit-exactly (SpecFloat division, exact 'f',9 formatting). Correspondence: snps and variants in per-sequence and --aggregate mode on the same input with thresholds at and just above occurring frequencies; the oracle recounts from the implementation's own per-sequence output; Coq models of both aggregators byte for byte.",
             "Coq proof (counting fold invariant, generic in the key) + SpecFloat model + correspondence check + recount oracle",
             "sam variants --aggregate shares AggregateWriteVariants with variants;", "5 C13"),
-    "C14": ("Proved for every feature AST (strand, any number of segments, codon_start): the ordered position list derived on the GenBank path, for complement(join(..)) and for join(complement(..),..), equals the one derived on the GFF3 path from the equivalent rows. Correspondence: one AST rendered both ways, parsed by the real code; regions compared field by field (name, strand, positions, translation) with the AST-level Coq model; variants run with each rendering on the same alignment must list the same mutations; each output byte for byte against the Coq caller model and against the statement-level oracle.",
+    "C14": ("Proved for every feature AST (strand, any number of segments, codon_start): the ordered position list derived on the GenBank path, for complement(join(..)) and for join(complement(..),..), equals the one derived on the GFF3 path from the equivalent rows; and a consistent annotation (the GenBank /translation is what the CDS translates to) gives the SAME region record (name, strand, ordered positions, residues) on both paths, for every list of features - so the variant caller, one function of the rows and the regions, receives identical inputs. Correspondence: one AST rendered both ways, parsed by the real code; regions compared field by field (name, strand, positions, translation) with the AST-level Coq model; variants run with each rendering on the same alignment must list the same mutations; each output byte for byte against the Coq caller model and against the statement-level oracle.",
             "Coq proof (AST-level position lists) + correspondence check over both renderings",
             "The text parsers (FEATURES/ORIGIN, GFF rows, location strings) are modelled at AST level only and exercised by rendering and re-parsing.", "5 C14"),
     "C02": ("Proved for every CIGAR over the nine operators, with and without insertion columns: the paired walk yields rows of equal length whose reference row, with its gap columns removed, is exactly the stretch of the reference the CIGAR consumes. Proved for queries described by ANY number of records (single, supplementary, overlapping): the whole pipeline - per-record rows, the re-gapping loop over the sorted insertions (find_col / regap_row), '*'-padding, column-wise flattening, right-extension - yields as reference row exactly the canonical gapped reference (after the k-th base, the total length of the block's insertions at k), so removing '-' gives exactly the reference, the gap columns are exactly the inserted bases (|R| = |ref| + total inserted length), the query row has the same length, and the query row read through the reference row (the columns where the reference row is '-' deleted) is exactly the sam toMultiAlign --pad row of the same block (so every reference position carries the aligned base / '-' / 'N'); with --skip-insertions the pair is (reference, toMultiAlign --pad row); a query without insertions gives the same pair; and when no two different records insert at the same reference position, the query row read in the gap columns is exactly the inserted bases of the records, position after position, in CIGAR order (pairk_insertions). The window cut (C15 theorem), wrap and file writer are an executable Coq model compared byte for byte with sam.ToPairAlign (directory output), and the implementation's files are compared with pairs written from the statement (reference row = reference with '-' exactly at the query's insertions; query row = toMultiAlign --pad row with the inserted bases in place).",
